@@ -209,7 +209,10 @@ def G2(vc):
     retries0 = s.retries
     final = vc.bool('outcome.final')
     delay = vc.opt('outcome.delay', vc.real)
-    exc = vc.fin('outcome.exception', [None, _HandlerBoom('boom')])
+    # every kind of exception an Outcome can carry (X1): the counter must not depend on the kind
+    exc = vc.fin('outcome.exception', [None, _HandlerBoom('boom'), execution.TemporaryError('t', delay=1),
+                                       execution.HandlerChildrenRetry('c', delay=1), execution.PermanentError('p'),
+                                       execution.HandlerTimeoutError('to'), execution.HandlerRetriesError('rt')])
     exc = resolve(exc)
     out_subrefs = resolve(vc.fin('outcome.subrefs', [(), ('h/sub-b', 'h/sub-a')]))
     outcome = execution.Outcome(final=final, delay=delay, result=Opaque('result'), exception=exc, subrefs=out_subrefs)
